@@ -23,6 +23,7 @@
    No proofs in this file. *)
 From Coq Require Import ZArith NArith List Bool.
 From Mpc Require Import Lang.Mini.
+From Mpc Require Circuit.Circuit.
 Import ListNotations.
 Open Scope N_scope.
 
@@ -51,7 +52,17 @@ Inductive opcode : Type :=
 | Oconcat                                  (* array/string +: wires of In[0] then of In[1] *)
 | Obts | Obtc                              (* bit test set / clear at a constant index (peephole.go) *)
 | Ohamming                                 (* builtin: native("hamming", a, b) = circuits.Hamming *)
-| Ounsupported.                            (* circ (native circuit files), f* *)
+| Ounsupported                             (* f*, a builtin other than Hamming *)
+| Ocirc (ins : list nat) (c : Mpc.Circuit.Circuit.circuit).
+                                           (* circ: the parsed native circuit instr.Circ (a term of
+                                              Circuit/Circuit.v) and ins = Circ.Inputs[k].Type.Bits.
+                                              The listing line "circ a.. {G,W} r0 .. rm" defines m+1
+                                              values at once; here the instruction defines ONE value,
+                                              the concatenation of all results (Circ.Outputs.Size()
+                                              bits, the wires circOut of Program.Circuit), and the
+                                              harness lets m+1 `slice` instructions follow it, one per
+                                              r_j (slice emits no gate: the value r_j is registered
+                                              with exactly the wires walloc holds for it) *)
 
 Record instr : Type := mkInstr {
   i_op : opcode;
@@ -88,6 +99,22 @@ Fixpoint pop_pos (p : positive) : N :=
   | xI q => 1 + pop_pos q
   end.
 Definition popcount (n : N) : N := match n with N0 => 0 | Npos p => pop_pos p end.
+
+(* bits of a number, LSB first, and back (circuit.Circuit.Compute's IO layout) *)
+Definition nbits (w : nat) (v : N) : list bool := map (fun i => N.testbit v (N.of_nat i)) (seq 0 w).
+Fixpoint bits_val (bs : list bool) : N :=
+  match bs with
+  | [] => 0
+  | b :: r => N.b2n b + 2 * bits_val r
+  end.
+
+(* the input bits of an embedded circuit: argument k (brought to its declared
+   width as every operand) zero padded to the width of the circuit's input k *)
+Fixpoint circ_input (vs : list sval) (args : list opnd) (ins : list nat) : list bool :=
+  match args with
+  | [] => []
+  | a :: ar => nbits (hd 0%nat ins) (opnd_val vs a) ++ circ_input vs ar (tl ins)
+  end.
 
 Definition bin (op : binop) (sg : bool) (vs : list sval) (i : instr) : N :=
   let a := arg 0 (i_args i) in
@@ -137,6 +164,7 @@ Definition eval_instr (vs : list sval) (i : instr) : N :=
   | Obtc => ofb (negb (N.testbit (opnd_val vs a0) (N.of_nat (opnd_const a1))))
   | Ohamming => popcount (N.lxor (opnd_val vs a0) (opnd_val vs a1))
   | Ounsupported => 0
+  | Ocirc ins c => bits_val (Mpc.Circuit.Circuit.eval_plain c (circ_input vs (i_args i) ins))
   end.
 
 Definition step (vs : list sval) (i : instr) : list sval :=
